@@ -28,6 +28,9 @@ CHECKS["C09"] = ("relational monitor over pairs (generated program, meaning-pres
 CHECKS["C05"] = ("verdict monitor (reference path analysis -> MUST_REJECT / MUST_ACCEPT / MAY with a trailing-return control group) over the real type checker via the in-process pool with CLI confirmation, plus reference-model monitor: every accepted function/method/closure is executed natively over an argument grid and compared with the reference interpreter, which detects falling off the end",
  "Held on N generated bodies (nested if/else-if/else, int and enum match with/without default, while/for with break/continue, early returns; as functions, methods and function literals): every body with a syntactic path to its end was rejected while the same body with a trailing return was accepted; every all-paths-return body was accepted; every accepted callable returned, for all 25 grid argument tuples, exactly the value of the return statement the reference interpreter executes.",
  "conditions opaque; exhaustive enum matches without default are MAY; statements after a return are not generated", "DESIGN.md §3 C05")
+CHECKS["C07"] = ("verdict monitor with an executable loan model (MUST_REJECT / MUST_ACCEPT / MAY) over generated borrow/use/access event sequences compiled by the real borrow checker (in-process pool + CLI confirmation), plus reference-model monitor: accepted programs are run natively and compared with the interpreter (write-through both ways); fixed cases for returned references; pinned probes for derived references",
+ "Held on N event sequences over variables, disjoint struct fields and array elements with up to three shared/mutable references in straight-line code, blocks, ifs and loops: every sequence with a conflicting access while the reference is still used later was rejected, every conflict-free sequence was accepted, returning a reference to a local was rejected, and every accepted program printed what the reference interpreter prints.",
+ "loan model = the rig's reading of the property; distinct array elements and statement-granularity expiry are MAY; references derived through calls are an open finding (kf-C07-derived)", "DESIGN.md §3 C07")
 CHECKS["C06"] = ("verdict monitor by construction over the real type checker (in-process pool + CLI confirmation), complete enumeration of place kind x access path x mutation form x context with a mutable-binding control group; native value witness for wrongly accepted cases",
  "Exhaustive over the finite product the property names (2359 mutants + controls): every program applying one mutation form to one immutable place was rejected by the real compiler while the same program with the binding made mutable was accepted, so each verdict is attributable to the immutability rule.",
  "the enumerated product is the rig's reading of the property's dimensions; syntactic contexts outside the seven listed are not covered", "DESIGN.md §3 C06")
